@@ -345,7 +345,7 @@ class OnePort(Network, ImmittanceMixin):
             warn('Detected superposition with reactive impedance, using s-domain.')
             Y1 = Y
             I1 = Isc.laplace()
-        elif Isc.is_ac:
+        elif Isc.is_ac and len(Isc.ac_keys()) == 1:
             Y1 = Y.subs(j * Isc.ac_keys()[0])
             I1 = Isc.select(Isc.ac_keys()[0])
         elif Isc.is_dc:
@@ -414,7 +414,7 @@ class OnePort(Network, ImmittanceMixin):
             warn('Detected superposition with reactive impedance, using s-domain.')
             Z1 = Z
             V1 = Voc.laplace()
-        elif Voc.is_ac:
+        elif Voc.is_ac and len(Voc.ac_keys()) == 1:
             Z1 = Z.subs(j * Voc.ac_keys()[0])
             V1 = Voc.select(Voc.ac_keys()[0])
         elif Voc.is_dc:
